@@ -11,8 +11,10 @@ FixPkgs == {"p", "q", "r"}
 FixOrder == <<"p", "q", "r">>                                  \* sorted by import path, in every layout
 FixDep == [x \in FixPkgs |-> IF x = "r" THEN {"p"} ELSE {}]
 
-RECURSIVE FixClosure(_)
-FixClosure(S) == LET T == S \cup UNION {FixDep[x] : x \in S} IN IF T = S THEN S ELSE FixClosure(T)
+(* the fixture's import graph has depth 1 (r -> p): two steps reach the fixed point; written without recursion so that the
+   module can be read by the proof system as well *)
+FixStep(S) == S \cup UNION {FixDep[x] : x \in S}
+FixClosure(S) == FixStep(FixStep(S))
 
 (* directories below a package's directory *)
 UnderOf(layout) == [x \in FixPkgs |->
